@@ -43,6 +43,21 @@ fn u64_variants(t: u64, max: u64) -> Vec<u64> {
         t + (1 << 32),
         t + (1u64 << 62),
         max,
+        // multibyte-integer group boundaries and a few more powers of two
+        t | (1 << 7),
+        t | (1 << 14),
+        t | (1 << 21),
+        t | (1 << 28),
+        t | (1 << 35),
+        t | (1 << 56),
+        t + (1 << 16),
+        t + (1 << 24),
+        t + (1 << 33),
+        t + (1 << 40),
+        t + (1 << 48),
+        t.wrapping_sub(1 << 32),
+        (1 << 32) - 1,
+        1 << 31,
     ];
     v.retain(|x| *x != t && *x <= max);
     v.sort_unstable();
@@ -135,6 +150,9 @@ pub fn field_mutations(spec: &XzSpec, file: &XzFile) -> Vec<(Mut, bool)> {
         for x in u64_variants(blk.content.len() as u64, VLI_MAX) {
             v.push((Mut::IndexUnpacked { b: bi, val: x }, true));
         }
+        for (k, byte) in [(1usize, 0u8), (1, 0xA5), (3, 0), (4, 0), (4, 0x21), (8, 0), (64, 0)] {
+            v.push((Mut::PackedJunk { b: bi, k, byte }, true));
+        }
         // weaker oracle only
         let sb = b[bl.header_off];
         for val in [sb ^ 1, sb.wrapping_add(1), sb ^ 0x40, 0xFF] {
@@ -220,6 +238,7 @@ pub fn mut_name(m: &Mut) -> &'static str {
         Mut::IndexTruncate { .. } => "index lists fewer records than blocks",
         Mut::IndexExtra { .. } => "index lists more records than blocks",
         Mut::IndexSwap { .. } => "index records exchanged",
+        Mut::PackedJunk { .. } => "junk inside the declared compressed size",
         Mut::IndexCrc(_) => "index crc32",
         Mut::FooterCrc(_) => "footer crc32",
         Mut::BackwardSize(_) => "backward size",
